@@ -176,12 +176,14 @@ Definition c04_step (g : config) (s : ost) (o : op) (x : obs) : sv :=
 Definition c04_oversize (s : ost) (o : op) (x : obs) : sv :=
   match o with
   | OEncode h id a ls buf =>
-      match spec_message h id a ls (snd (os_eids s)) with
-      | Some (_, body) =>
-          if fits_frame body then sv_triv
-          else sv_of (match x with XEnc None out => list_eqb out buf | _ => false end) 200
-      | None => sv_triv
-      end
+      if known_encoder h id then
+        match spec_message h id a ls (snd (os_eids s)) with
+        | Some (_, body) =>
+            if fits_frame body then sv_triv
+            else sv_of (match x with XEnc None out => list_eqb out buf | _ => false end) 200
+        | None => sv_triv
+        end
+      else sv_triv
   | _ => sv_triv
   end.
 Definition sv_and (a b : sv) : sv :=
